@@ -73,6 +73,7 @@ structure FwdDomain (ds : Dataset) (cs : ConnSet) (p : Params) (acc egr : List N
   idxF : cs.fwdIdx = fwdIndex cs.fwd
   idxR : cs.revIdx = revIndex cs.rev
   fr : ∀ c ∈ cs.fwd, c ∈ cs.rev
+  rf : ∀ c ∈ cs.rev, c ∈ cs.fwd
   mwb : ∀ c ∈ cs.rev, c.effWait p.minWait ≤ p.minWait
   boundD : ∀ c ∈ cs.rev, c.dep < MAX_INT
   boundA : ∀ c ∈ cs.fwd, ∀ g ∈ egr, c.arr + g.time < MAX_INT
@@ -87,7 +88,10 @@ theorem forwardSingle_optimal {ds : Dataset} {cs : ConnSet} {p : Params} {acc eg
     {e x : Conn} {g : NTD} (hJ : AdmFwd (mkCtx ds p cs acc egr p.time (-1)) cs.fwd e x g)
     (hT : x.arr + g.time - p.time ≤ p.maxTotal) :
     (∀ r, calculateSingleWith ds cs p acc egr = .ok r → r.arrivalTime ≤ x.arr + g.time) ∧
-    (∀ reason, calculateSingleWith ds cs p acc egr ≠ .noRouting reason) := by
+    (∀ reason, calculateSingleWith ds cs p acc egr ≠ .noRouting reason) ∧
+    (∀ r, calculateSingleWith ds cs p acc egr = .ok r → ∀ a0 e0 x0,
+      AdmRev { mkCtx ds p cs acc egr p.time (-1) with arrT := r.arrivalTime } cs.rev a0 e0 x0 →
+      p.time ≤ e0.dep - e0.effWait p.minWait - a0.time → e0.dep - e0.effWait p.minWait - a0.time ≤ r.departureTime) := by
   have ha' : acc.isEmpty = false := by cases acc with | nil => exact absurd rfl hane | cons _ _ => rfl
   have he' : egr.isEmpty = false := by cases egr with | nil => exact absurd rfl hene | cons _ _ => rfl
   unfold calculateSingleWith
@@ -202,18 +206,71 @@ theorem forwardSingle_optimal {ds : Dataset} {cs : ConnSet} {p : Params} {acc eg
     obtain ⟨ba, node, hbest, hba⟩ := bestEgress_le hegrND hg1 hegr1 hb0 (by rw [hdepT, hpp]; omega) hlt1 harrpos hegrNN
     rw [if_neg (by omega), hbest]
     simp only
-    -- (1) the second pass arrives by the chosen time
-    constructor
-    · intro r hr'
+    -- the second pass arrives by the chosen time
+    have harrive : ∀ r, singleReverse { cx with arrT := ba } fs.usable = .ok r → r.arrivalTime ≤ ba := by
+      intro r hr'
       obtain ⟨bd, j, hrj, hJok, _⟩ := singleReverse_emits (cx := { cx with arrT := ba }) fs.usable
         (by show SortedRev cx.cs.rev; rw [hcs]; exact D.sortedR) (wR ba).arrMono (by show 0 ≤ cx.p.minWait; exact wF.mw) (hclean ba) hr'
       rw [hrj]
       have := journeyOK_arrival hJok (by show ((cx.egressFoot).map (·.stop)).Nodup; exact hegrND)
-      have hba' : ({ cx with arrT := ba } : Ctx).arrT = ba := rfl
-      rw [hba'] at this
+      exact this
+    obtain ⟨gs, hgs, js, xs, egs, hjs, hxs, hngs, hbaeq, hbaT, hba0⟩ := bestEgress_sound hbest
+    -- the chosen time is not beyond the cut line
+    have hbaβ : ba ≤ β := by
+      rw [hβdef]
+      by_cases hc : fs.reached = true ∧ cx.maxEgress ≥ 0 ∧ fs.tentEgrArr < MAX_INT ∧ fs.tentEgrArr + cx.maxEgress ≤ cx.depT + cx.p.maxTotal
+      · rw [if_pos hc]
+        obtain ⟨c1, hc1, harr1, ⟨g1', hng1⟩, hegr1', _⟩ := hF.reach hc.1
+        have hm1 := nodes_mem hng1
+        have hmax := maxTime_ge cx.egressFoot g1' hm1.1
+        have hmaxdef : cx.maxEgress = maxTime cx.egressFoot := rfl
+        have hc1pos : 0 ≤ c1.arr := by
+          obtain ⟨js1, x1, hj1, hx1, hx1b⟩ := hegr1'
+          have := harrpos _ _ _ hj1 hx1
+          omega
+        obtain ⟨ba', node', hbest', hba'⟩ := bestEgress_le hegrND hm1.1 (by rw [hm1.2]; exact hegr1')
+          (by have := hegrNN g1' hm1.1; omega) (by omega)
+          (D.boundA c1 (by rw [← hcs]; exact hsubd c1 hc1) g1' (by rw [← hegrF]; exact hm1.1)) harrpos hegrNN
+        rw [hbest] at hbest'
+        simp only [Option.some.injEq, Prod.mk.injEq] at hbest'
+        omega
+      · rw [if_neg hc]; omega
+    have hcapc : cx.p.maxFirstWait < 0 := by rw [hpp]; exact D.cap
+    have hmem2 : ∀ a ∈ (cx.cs.fwd.drop start).filter (fun c => fs.usable c.trip), a ∈ cx.cs.rev.filter (fun c => fs.usable c.trip) := by
+      intro a ha
+      obtain ⟨ha1, ha2⟩ := List.mem_filter.mp ha
+      exact List.mem_filter.mpr ⟨by rw [hcs]; exact D.fr a (by rw [← hcs]; exact hsubd a ha1), ha2⟩
+    -- the general second-pass theorem, instantiated
+    have hgen : ∀ {a0 : NTD} {e0 x0 : Conn}, AdmRev { cx with arrT := ba } (cx.cs.rev.filter fun c => fs.usable c.trip) a0 e0 x0 →
+        cx.depT ≤ e0.dep - e0.effWait cx.p.minWait - a0.time →
+        (∀ r, singleReverse { cx with arrT := ba } fs.usable = .ok r → e0.dep - e0.effWait cx.p.minWait - a0.time ≤ r.departureTime) ∧
+        (∀ reason, singleReverse { cx with arrT := ba } fs.usable ≠ .noRouting reason) := by
+      intro a0 e0 x0 hAdm hdep0'
+      have hna0 : cx.nodesAccess e0.depStop = some a0 := by
+        have := nodes_find_nodup wF.accNodup hAdm.acc
+        rw [hAdm.stop] at this
+        exact this
+      have hwe0 := effWait_nonneg e0 cx.p.minWait wF.mw
+      have hok0 : AccOK { cx with arrT := ba } e0 :=
+        Or.inr ⟨a0, hna0, by show cx.depT ≤ e0.dep - a0.time - e0.effWait cx.p.minWait; omega,
+          Or.inl (by show cx.p.maxFirstWait < e0.effWait cx.p.minWait; omega)⟩
+      have hd0 : 0 ≤ admDeparture { cx with arrT := ba } a0 e0 := by
+        show 0 ≤ e0.dep - e0.effWait cx.p.minWait - a0.time
+        have := D.t0; rw [hdepT] at hdep0'; omega
+      have hspan : ({ cx with arrT := ba } : Ctx).arrT - admDeparture { cx with arrT := ba } a0 e0 ≤ cx.p.maxTotal := by
+        show ba - (e0.dep - e0.effWait cx.p.minWait - a0.time) ≤ cx.p.maxTotal
+        omega
+      exact singleReverse_gen (cx := { cx with arrT := ba }) fs.usable (wR ba)
+        (by show SortedRev cx.cs.rev; rw [hcs]; exact D.sortedR) (by show cx.cs.revIdx = revIndex cx.cs.rev; rw [hcs]; exact D.idxR)
+        (by show ∀ c ∈ cx.cs.rev, c.effWait cx.p.minWait ≤ cx.p.minWait; rw [hcs, hpp]; exact D.mwb)
+        wF.accNodup wF.accNonneg (by show ∀ c ∈ cx.cs.rev, c.dep < MAX_INT; rw [hcs]; exact D.boundD)
+        hba0 hAdm hok0 (Or.inr ⟨hcapc, hdep0'⟩) hd0 hspan
+    refine ⟨?_, ?_, ?_⟩
+    · -- (1)
+      intro r hr'
+      have := harrive r hr'
       omega
     · -- (2) the second pass does not fail: the journey that realises the chosen time is found
-      obtain ⟨gs, hgs, js, xs, egs, hjs, hxs, hngs, hbaeq, hbaT, hba0⟩ := bestEgress_sound hbest
       obtain ⟨es, xs', h1, h2, h3, h4, h5, h6, h7, hb8⟩ := hS.egr gs.stop js hjs
       rw [hxs] at h2; cases h2
       obtain ⟨hes, hescb, hesdis, ts, hrs, hts⟩ := hb8
@@ -226,35 +283,9 @@ theorem forwardSingle_optimal {ds : Dataset} {cs : ConnSet} {p : Params} {acc eg
       have hegst := hegrNN egs hmegs.1
       have hesP : es ∈ cx.cs.fwd.drop start := hin es hes (by omega)
       have hxsP : xs ∈ cx.cs.fwd.drop start := hin xs h4 (by omega)
-      -- the chosen time is not beyond the cut line
-      have hbaβ : ba ≤ β := by
-        rw [hβdef]
-        by_cases hc : fs.reached = true ∧ cx.maxEgress ≥ 0 ∧ fs.tentEgrArr < MAX_INT ∧ fs.tentEgrArr + cx.maxEgress ≤ cx.depT + cx.p.maxTotal
-        · rw [if_pos hc]
-          obtain ⟨c1, hc1, harr1, ⟨g1', hng1⟩, hegr1', _⟩ := hF.reach hc.1
-          have hm1 := nodes_mem hng1
-          have hmax := maxTime_ge cx.egressFoot g1' hm1.1
-          have hmaxdef : cx.maxEgress = maxTime cx.egressFoot := rfl
-          have hc1pos : 0 ≤ c1.arr := by
-            obtain ⟨js1, x1, hj1, hx1, hx1b⟩ := hegr1'
-            have := harrpos _ _ _ hj1 hx1
-            omega
-          obtain ⟨ba', node', hbest', hba'⟩ := bestEgress_le hegrND hm1.1 (by rw [hm1.2]; exact hegr1')
-            (by have := hegrNN g1' hm1.1; omega) (by omega)
-            (D.boundA c1 (by rw [← hcs]; exact hsubd c1 hc1) g1' (by rw [← hegrF]; exact hm1.1)) harrpos hegrNN
-          rw [hbest] at hbest'
-          simp only [Option.some.injEq, Prod.mk.injEq] at hbest'
-          omega
-        · rw [if_neg hc]; omega
-      -- J*'s trips are usable; move it to the second pass
       have husable := (hrsP.usable wF hsubd hF (by omega))
       have hen := hF.enter es hesP ⟨hescb, hesdis, ts, hrsP, hts⟩ (by omega)
       have hues := hF.usable es.trip hen
-      -- the list of the second pass: usable connections of the reverse list
-      have hmem2 : ∀ a ∈ (cx.cs.fwd.drop start).filter (fun c => fs.usable c.trip), a ∈ cx.cs.rev.filter (fun c => fs.usable c.trip) := by
-        intro a ha
-        obtain ⟨ha1, ha2⟩ := List.mem_filter.mp ha
-        exact List.mem_filter.mpr ⟨by rw [hcs]; exact D.fr a (by rw [← hcs]; exact hsubd a ha1), ha2⟩
       have hreach2 : Reach { cx with arrT := ba } (cx.cs.rev.filter fun c => fs.usable c.trip) es.depStop ts :=
         (husable.mono_set hmem2).arrT ba
       have hes2 : es ∈ cx.cs.rev.filter (fun c => fs.usable c.trip) := hmem2 es (List.mem_filter.mpr ⟨hesP, hues⟩)
@@ -265,32 +296,50 @@ theorem forwardSingle_optimal {ds : Dataset} {cs : ConnSet} {p : Params} {acc eg
         rw [hmegs.2, ← h3] at this
         exact this
       obtain ⟨a0, e0, x0, hAdm, hdep0⟩ := reach_reverse hreach2 es xs hes2 hxs2 rfl hts h5 h6 hescb hunb
-      have hdep0' : cx.depT ≤ e0.dep - e0.effWait cx.p.minWait - a0.time := hdep0
-      have hna0 : cx.nodesAccess e0.depStop = some a0 := by
-        have := nodes_find_nodup wF.accNodup hAdm.acc
-        rw [hAdm.stop] at this
-        exact this
+      exact (hgen hAdm hdep0).2
+    · -- (3) no admissible journey that meets the reported arrival leaves later
+      intro r hr' a0 e0 x0 hAdm hdepJ
+      have harr := harrive r hr'
+      rw [← hcs] at hAdm
+      rw [← hdepT, ← hpp] at hdepJ
+      rw [← hpp]
+      -- the journey, for the chosen time `ba`
+      obtain ⟨hcu0, hdis0, t0, hr0, hrt0⟩ := hAdm.unboard
+      obtain ⟨t0', ht0', hr0'⟩ := hr0.arrT_mono (A' := ba) harr
+      have hr0'' : RReach { cx with arrT := ba } cx.cs.rev x0.arrStop t0' := hr0'
       have hwe0 := effWait_nonneg e0 cx.p.minWait wF.mw
-      have hcapc : cx.p.maxFirstWait < 0 := by rw [hpp]; exact D.cap
-      have hok0 : AccOK { cx with arrT := ba } e0 :=
-        Or.inr ⟨a0, hna0, by show cx.depT ≤ e0.dep - a0.time - e0.effWait cx.p.minWait; omega,
-          Or.inl (by show cx.p.maxFirstWait < e0.effWait cx.p.minWait; omega)⟩
-      have hd0 : 0 ≤ admDeparture { cx with arrT := ba } a0 e0 := by
-        show 0 ≤ e0.dep - e0.effWait cx.p.minWait - a0.time
-        have := D.t0; rw [hdepT] at hdep0'; omega
-      have hspan : ({ cx with arrT := ba } : Ctx).arrT - admDeparture { cx with arrT := ba } a0 e0 ≤ cx.p.maxTotal := by
-        show ba - (e0.dep - e0.effWait cx.p.minWait - a0.time) ≤ cx.p.maxTotal
-        omega
-      exact (singleReverse_gen (cx := { cx with arrT := ba }) fs.usable (wR ba)
-        (by show SortedRev cx.cs.rev; rw [hcs]; exact D.sortedR) (by show cx.cs.revIdx = revIndex cx.cs.rev; rw [hcs]; exact D.idxR)
-        (by show ∀ c ∈ cx.cs.rev, c.effWait cx.p.minWait ≤ cx.p.minWait; rw [hcs, hpp]; exact D.mwb)
-        wF.accNodup wF.accNonneg (by show ∀ c ∈ cx.cs.rev, c.dep < MAX_INT; rw [hcs]; exact D.boundD)
-        hba0 hAdm hok0 (Or.inr ⟨hcapc, hdep0⟩) hd0 hspan).2
+      have hat0 := wF.accNonneg a0 hAdm.acc
+      have he0F : e0 ∈ cx.cs.fwd := by rw [hcs]; exact D.rf e0 (by rw [← hcs]; exact hAdm.he)
+      have hx0F : x0 ∈ cx.cs.fwd := by rw [hcs]; exact D.rf x0 (by rw [← hcs]; exact hAdm.hx)
+      have hdm0 := wF.depMono e0 he0F x0 hx0F hAdm.trip hAdm.seq
+      have hph0 := wF.posHop x0 hx0F
+      have he0P : e0 ∈ cx.cs.fwd.drop start := hin e0 he0F (by omega)
+      have hx0P : x0 ∈ cx.cs.fwd.drop start := hin x0 hx0F (by omega)
+      have hle0 := hr0''.time_le (wR ba) (fun a ha => ha)
+      have hboard0 : BoardP cx (cx.cs.fwd.drop start) e0 :=
+        ⟨hAdm.board, hdis0 ▸ (by rw [hAdm.trip]), cx.depT + a0.time, by rw [← hAdm.stop]; exact Reach.access a0 hAdm.acc, by omega⟩
+      have hen0 := hF.enter e0 he0P hboard0 (by
+        show e0.dep ≤ β
+        have : ({ cx with arrT := ba } : Ctx).arrT = ba := rfl
+        omega)
+      have hu0 := hF.usable e0.trip hen0
+      have hcont := rreach_usable (cx := cx) (cx' := { cx with arrT := ba }) (L := cx.cs.fwd) (P := cx.cs.fwd.drop start) (Lr := cx.cs.rev)
+        wF (wR ba) hsubd (by rw [hcs]; exact D.rf) hF hin (by show ba ≤ β; exact hbaβ) ⟨rfl, rfl, rfl⟩ hr0''
+        e0 x0 he0P hx0P hboard0 hAdm.trip hAdm.seq hcu0 rfl (by omega)
+      have hAdm2 : AdmRev { cx with arrT := ba } (cx.cs.rev.filter fun c => fs.usable c.trip) a0 e0 x0 :=
+        ⟨hAdm.acc, hAdm.stop, List.mem_filter.mpr ⟨hAdm.he, hu0⟩, List.mem_filter.mpr ⟨hAdm.hx, by rw [← hAdm.trip]; exact hu0⟩,
+          hAdm.trip, hAdm.seq, hAdm.board, ⟨hcu0, hdis0, t0', hcont, by omega⟩⟩
+      exact (hgen hAdm2 hdepJ).1 r hr'
 
 /-! ### dataset level -/
 
 /-- arrival plus egress walk fits the integer type of the tables -/
 def ArrBounded (ds : Dataset) : Prop := ∀ c ∈ ds.conns, ∀ g ∈ ds.egress, c.arr + g.time < MAX_INT
+
+theorem connSetOf_rev_mem_fwd (ds : Dataset) (sc : Scenario) : ∀ c ∈ (ds.connSetOf sc).rev, c ∈ (ds.connSetOf sc).fwd := by
+  intro c hc
+  simp only [Dataset.connSetOf, mkConnSet, Dataset.fwdAll, Dataset.revAll, List.mem_filter] at hc ⊢
+  exact ⟨(mem_isort fwdLt c _).mpr ((mem_isort revLt c _).mp hc.1), hc.2⟩
 
 theorem FwdDomain_dataset {ds : Dataset} (hwf : WFData ds) (p : Params) (hmw : 0 ≤ p.minWait) (hmt : 0 ≤ p.maxTransfer)
     (hpos : PosHops ds) (hself : SelfFootArr ds) (hb : TimesBounded ds) (hba : ArrBounded ds) (hcap : p.maxFirstWait < 0)
@@ -301,7 +350,7 @@ theorem FwdDomain_dataset {ds : Dataset} (hwf : WFData ds) (p : Params) (hmw : 0
       (routerLookup ds.access p.maxAccess) (routerLookup ds.egress p.maxEgress) := by
   have hsub := connSetOf_rev_sub ds (ds.scenarioOf p)
   have hfr := connSetOf_fwd_mem_rev ds (ds.scenarioOf p)
-  refine ⟨?_, ?_, connSetOf_sortedFwd ds _, connSetOf_sorted ds _, rfl, rfl, hfr, ?_, fun c hc => hb c (hsub c hc), ?_, h0, ht, hcap, ?_⟩
+  refine ⟨?_, ?_, connSetOf_sortedFwd ds _, connSetOf_sorted ds _, rfl, rfl, hfr, connSetOf_rev_mem_fwd ds _, ?_, fun c hc => hb c (hsub c hc), ?_, h0, ht, hcap, ?_⟩
   · -- FW
     have hw := timeWF_dataset hwf p hmw hmt (ds.scenarioOf p) (routerLookup ds.access p.maxAccess) (routerLookup ds.egress p.maxEgress) p.time (-1)
     refine ⟨?_, ?_, ?_, ?_, ?_, ?_, hmw, ?_, ?_, by show p.maxFirstWait ≤ 0; omega⟩
@@ -359,7 +408,12 @@ theorem C03_optimal (ds : Dataset) (hwf : WFData ds) (p : Params) (hp : p.forwar
         (ds.connSetOf (ds.scenarioOf p)).fwd e x g)
     (hT : x.arr + g.time - p.time ≤ p.maxTotal) :
     (∀ r, calculateSingle ds p = .ok r → r.arrivalTime ≤ x.arr + g.time) ∧
-    (∀ reason, calculateSingle ds p ≠ .noRouting reason) := by
+    (∀ reason, calculateSingle ds p ≠ .noRouting reason) ∧
+    (∀ r, calculateSingle ds p = .ok r → ∀ a0 e0 x0,
+      AdmRev { mkCtx (ds.restrict (ds.connSetOf (ds.scenarioOf p))) p (ds.connSetOf (ds.scenarioOf p))
+          (routerLookup ds.access p.maxAccess) (routerLookup ds.egress p.maxEgress) p.time (-1) with arrT := r.arrivalTime }
+        (ds.connSetOf (ds.scenarioOf p)).rev a0 e0 x0 →
+      p.time ≤ e0.dep - e0.effWait p.minWait - a0.time → e0.dep - e0.effWait p.minWait - a0.time ≤ r.departureTime) := by
   have D := FwdDomain_dataset hwf p hmw hmt hpos hself hb hba hcap hacc hand hegr hend h0 ht
   have hane : routerLookup ds.access p.maxAccess ≠ [] := by
     obtain ⟨_, _, t, hr, _⟩ := hJ.board
